@@ -139,6 +139,16 @@ CHECKS["C01"] = dict(
     technique="SMT translation validation (z3 NRA, radicals/orientation by rewriting) of the whole preprocessing pipeline",
     design="§4 C01", engine="E1")
 
+CHECKS["C17"] = dict(
+    level="translation_validation",
+    text="apply_restrictions runs on interior-facet integrand skeletons (jump/avg, restricted sums/products, "
+         "gradients, facet normals on both sides, unrestricted continuous data) with and without default "
+         "restrictions on flat and immersed cells, and through compute_form_data for dS/dS_h/dS_v; z3 proves "
+         "in == out in a two-sided environment with continuity built in; restriction placement and the required "
+         "rejection of missing/double restrictions are checked structurally.",
+    technique="SMT translation validation (z3 NRA) in a two-sided symbolic environment + structural side conditions",
+    design="§4 C17", engine="E1")
+
 NOT_APPLICABLE = {
     "C11": "Signature injectivity is injectivity of string renderings (repr/str, numpy array printing, float "
            "formatting) composed with sha512: CrossHair cannot confirm it, z3/cvc5 string theories answer unknown, "
